@@ -900,7 +900,18 @@ where
                 Ok(ElispEscape::Unibyte)
             }
         }
-        None => error(read, ErrorCode::InvalidUnicodeCodePoint),
+        None => invalid_code_point_in_string(read),
+    }
+}
+
+/// A numeric escape inside a string denotes no character. If the input ends
+/// right there, the string is cut off (further digits could still complete the
+/// escape, and the closing quote is missing in any case): an EOF error.
+fn invalid_code_point_in_string<'de, R: Read<'de> + ?Sized, T>(read: &mut R) -> Result<T> {
+    if read.peek()?.is_none() {
+        error(read, ErrorCode::EofWhileParsingString)
+    } else {
+        error(read, ErrorCode::InvalidUnicodeCodePoint)
     }
 }
 
@@ -919,7 +930,7 @@ where
             scratch.extend_from_slice(c.encode_utf8(&mut [0_u8; 4]).as_bytes());
             Ok(ElispEscape::Multibyte)
         }
-        None => error(read, ErrorCode::InvalidUnicodeCodePoint),
+        None => invalid_code_point_in_string(read),
     }
 }
 
